@@ -122,3 +122,146 @@ vk_harness!(c02_numeric_functions, {
     }
     vk_cover!(true, "reach: numeric functions");
 });
+
+// ---------------------------------------------------------------------------------------------------------------
+// C07: string functions count in CHARACTERS. Strings are fixed (symbolic strings are out of CBMC's reach here), every
+// numeric argument is symbolic over its whole type; the oracle works on the character array.
+
+const S_CHARS: [char; 4] = ['A', '\u{e9}', 'Z', '\u{1f36a}']; // 1, 2, 1 and 4 bytes
+const S_TEXT: &str = "A\u{e9}Z\u{1f36a}";
+
+fn expect_chars(got: Result<Val>, from: usize, to: usize) {
+    // the expected result is S_CHARS[from..to]
+    match got {
+        Ok(Val::String(s)) => {
+            let mut n = 0;
+            let mut ok = true;
+            for (i, ch) in s.chars().enumerate() {
+                if from + i >= to || ch != S_CHARS[from + i] {
+                    ok = false;
+                }
+                n += 1;
+            }
+            vk_check!(ok && n == to - from, "C07: the function must return exactly the documented substring, counted in characters");
+        }
+        _ => vk_check!(false, "C07: a string function with valid arguments must return a string"),
+    }
+}
+
+//@ prop: C07
+//@ tier: quick
+//@ unwind: 8
+//@ encodes: Function::left; Function::right; usize::try_from(Val)
+//@ bounds: string fixed to the 4 characters A, e-acute, Z, cookie emoji (1, 2, 1 and 4 bytes); length argument any Integer
+vk_harness!(c07_left_right_count_characters, {
+    let n = vk::any_i16();
+    let l = Function::left(Val::String(S_TEXT.into()), Val::Integer(n));
+    let r = Function::right(Val::String(S_TEXT.into()), Val::Integer(n));
+    if n < 0 {
+        vk_check!(l.is_err() && r.is_err(), "C07: a negative length is a BASIC error");
+    } else {
+        let k = if (n as usize) < 4 { n as usize } else { 4 };
+        expect_chars(l, 0, k);
+        expect_chars(r, 4 - k, 4);
+    }
+    vk_cover!(n == 2, "reach: split between multi-byte characters");
+    vk_cover!(n > 4, "reach: longer than the string");
+});
+
+fn mid_case(with_len: bool) {
+    let (pos, len) = (vk::any_i16(), vk::any_i16());
+    let mut args: Stack<Val> = Stack::new("X");
+    args.push(Val::String(S_TEXT.into())).unwrap();
+    args.push(Val::Integer(pos)).unwrap();
+    if with_len {
+        args.push(Val::Integer(len)).unwrap();
+    }
+    let got = Function::mid(args);
+    vk_cover!(got.is_ok(), "reach: mid ok");
+    if pos <= 0 || (with_len && len < 0) {
+        vk_check!(got.is_err(), "C07: position 0 or a negative argument is a BASIC error");
+    } else {
+        // begins with the character in position `pos` (1-based); nothing when that is past the end
+        let from = if (pos as usize) <= 4 { pos as usize - 1 } else { 4 };
+        let avail = 4 - from;
+        let take = if with_len && (len as usize) < avail { len as usize } else { avail };
+        expect_chars(got, from, from + take);
+    }
+}
+
+//@ prop: C07
+//@ tier: quick
+//@ unwind: 8
+//@ encodes: Function::mid (two-argument form); Stack::pop; usize::try_from(Val)
+//@ bounds: string fixed to the 4 characters A, e-acute, Z, cookie emoji; position any Integer
+vk_harness!(c07_mid_from_position, {
+    mid_case(false);
+});
+
+//@ prop: C07
+//@ tier: thorough
+//@ unwind: 8
+//@ encodes: Function::mid (three-argument form); Stack::pop; u16::try_from(Val); usize::try_from(Val)
+//@ bounds: string fixed to the 4 characters A, e-acute, Z, cookie emoji; position and length any Integer
+vk_harness!(c07_mid_with_length, {
+    mid_case(true);
+});
+
+const H_CHARS: [char; 5] = ['A', 'B', '\u{e9}', 'A', 'B'];
+const H_TEXT: &str = "AB\u{e9}AB";
+
+//@ prop: C07
+//@ tier: thorough
+//@ unwind: 10
+//@ encodes: Function::instr; Stack::pop; i16::try_from(Val)
+//@ bounds: searched string fixed to A B e-acute A B; pattern one of B, AB, e-acute, Z (absent), "" (symbolic choice); start position any Integer >= 0, or omitted
+vk_harness!(c07_instr_positions_are_characters, {
+    let which = vk::any_below(5);
+    let (pat, pat_chars): (&str, &[char]) = match which {
+        0 => ("B", &['B']),
+        1 => ("AB", &['A', 'B']),
+        2 => ("\u{e9}", &['\u{e9}']),
+        3 => ("Z", &['Z']),
+        _ => ("", &[]),
+    };
+    let has_start = vk::any_bool();
+    let start = vk::any_i16();
+    vk::assume(start >= 0);
+    let mut args: Stack<Val> = Stack::new("X");
+    if has_start {
+        args.push(Val::Integer(start)).unwrap();
+    }
+    args.push(Val::String(H_TEXT.into())).unwrap();
+    args.push(Val::String(pat.into())).unwrap();
+    let got = Function::instr(args);
+    let from = if has_start { start as usize } else { 1 };
+    if from == 0 {
+        vk_check!(got.is_err(), "C07: INSTR with start 0 is a BASIC error");
+    } else {
+        // reference: first character position p >= from where the pattern matches; 0 if none (manual: "Returns 0 if not found")
+        let mut want = 0usize;
+        let mut p = 5usize;
+        while p >= 1 {
+            if p >= from && p - 1 + pat_chars.len() <= 5 {
+                let mut m = true;
+                let mut j = 0;
+                while j < pat_chars.len() {
+                    if H_CHARS[p - 1 + j] != pat_chars[j] {
+                        m = false;
+                    }
+                    j += 1;
+                }
+                if m {
+                    want = p;
+                }
+            }
+            p -= 1;
+        }
+        match got {
+            Ok(Val::Integer(n)) => vk_check!(n as usize == want, "C07: INSTR returns the character position of the first match at or after the start, 0 if there is none"),
+            _ => vk_check!(false, "C07: INSTR with valid arguments returns an Integer"),
+        }
+    }
+    vk_cover!(which == 3 && from == 1, "reach: pattern absent");
+    vk_cover!(which == 1 && from == 2, "reach: second occurrence");
+});
